@@ -547,11 +547,22 @@ EDGE_ETA_CFGS = [
 ]
 
 
+# round 5: the warning level is legal on either side of the detection level.  With warning_level < detect_level the
+# detection band is the NARROWER one: a statistic between the two bands is a drift without a warning.  Anything that
+# derives one decision from the other ("the warning band lies inside the detection band") is invisible on the grid,
+# where warning_level >= detect_level throughout.
+CROSS_CFGS = [
+    _params(0.6, 0.05, 0.2, 0, 1, 4), _params(0.7, 0.01, 0.1, 1, 1, 4), _params(0.5, 0.25, 0.4, 0, 1, 1),
+    _params(0.9, 0.05, 0.4, 2, 2, 4), _params(0.6, 0.001, 0.05, 1, 1, 1, tracked=("tpr", "ppv")),
+]
+
+
 def _dfs_families(tier):
     if tier == "quick":
         return [("grid", _grid("cover"), 6, 1), ("deep", [DEEP_A], 7, 2), ("ties", TIE_CFGS, 6, 1),
-                ("edge-eta", EDGE_ETA_CFGS, 5, 1)]
+                ("edge-eta", EDGE_ETA_CFGS, 5, 1), ("cross", CROSS_CFGS, 6, 1)]
     return [
+        ("cross", CROSS_CFGS, 7, 1),
         ("edge-eta", EDGE_ETA_CFGS, 6, 1),
         ("ties", TIE_CFGS, 7, 1),
         ("grid", _grid("full"), 6, 1),
@@ -967,6 +978,8 @@ def describe(tier):
                 {"family": kind, "parameter_sets": len(cfgs), "depth": depth}
                 for kind, cfgs, depth, _ in _dfs_families(tier)
             ],
+            "cross": "warning_level stricter than detect_level (0.05/0.2, 0.01/0.1, 0.25/0.4, 0.05/0.4, 0.001/0.05 on two tracked "
+                     "rates): the detection band is the narrower one; all 4^%d sequences per configuration" % (6 if tier == "quick" else 7),
             "grid": "time_decay_factor {0.5,0.6,0.7,0.9} x levels %s x burn_in {0,1,2} x subsample {1,2} x "
             "round_val {4,1}, num_mc %d; 'grid' = %s, 'grid7'/quick 'grid' = a 24-member pairwise covering array of it; 'ties' = decay 0.5, "
             "levels (0.4, 0.3) and (0.5, 0.25)"
